@@ -268,7 +268,7 @@ def mirror_steps(fn, tid: str, state: dict | None = None):
     ast = fn.ast
     if tid.startswith('passes:'):
         for p in tid.split(':', 1)[1].split('>'):
-            state['current'] = p
+            state['current'], state['ast'] = p, ast
             new = PASSES[p].apply(ast)
             yield p, {}, ast, new
             ast = new
@@ -278,17 +278,17 @@ def mirror_steps(fn, tid: str, state: dict | None = None):
         changed = False
         if sw['enable_const_fold']:
             kw = {'enable_context': sw['enable_const_fold_context'], 'enable_op': sw['enable_const_fold_op']}
-            state['current'] = 'ConstFold'
+            state['current'], state['ast'] = 'ConstFold', ast
             new, c = ConstFold.apply_with_status(ast, **kw)
             yield 'ConstFold', kw, ast, new
             ast, changed = new, changed | c
         if sw['enable_copy_prop']:
-            state['current'] = 'CopyPropagate'
+            state['current'], state['ast'] = 'CopyPropagate', ast
             new, c = CopyPropagate.apply_with_status(ast)
             yield 'CopyPropagate', {}, ast, new
             ast, changed = new, changed | c
         if sw['enable_dead_code_elim']:
-            state['current'] = 'DeadCodeEliminate'
+            state['current'], state['ast'] = 'DeadCodeEliminate', ast
             new, c = DeadCodeEliminate.apply_with_status(ast)
             yield 'DeadCodeEliminate', {}, ast, new
             ast, changed = new, changed | c
@@ -331,7 +331,18 @@ def _lit_kind(v) -> str:
     return 'number'
 
 
-def _diag_copy_prop(fn, before, args, ref):
+def _responsible(ref, got, variant_outcome) -> bool:
+    """A single rewrite is held responsible when it alone changes what the program returns, or makes it
+    fail the way the fully transformed program fails (a variant that merely fails to compile because a
+    rewrite was applied out of its context is not evidence)."""
+    if outcome_same(ref, variant_outcome):
+        return False
+    if variant_outcome[0] == 'ret':
+        return True
+    return got[0] == variant_outcome[0] and (got[0] == 'timeout' or got[1] == variant_outcome[1])
+
+
+def _diag_copy_prop(fn, before, args, ref, got):
     from fpy2.analysis import AssignDef, DefineUse, PhiDef
     from fpy2.ast import Assign, Id, IndexedAssign, Var, WhileStmt
     from fpy2.transform.subst_var import _SubstVar
@@ -342,6 +353,24 @@ def _diag_copy_prop(fn, before, args, ref):
         if (isinstance(d, AssignDef) and isinstance(d.site, Assign) and isinstance(d.site.target, Id)
                 and isinstance(d.site.expr, Var) and len(du.uses[d]) > 0):
             prop[d] = d.site.expr
+
+    def hazard(d, stmt):
+        """Is the source of the copy `x = y` still the same definition of y where x is used?"""
+        src = d.site.expr
+        d1 = du.find_def_from_use(src)
+        if isinstance(stmt, WhileStmt):
+            d2 = du.in_defs[stmt.body].get(src.name)
+        else:
+            d2 = du.reach[stmt].get(src.name)
+        if d2 is None:
+            return 'copy-source-not-in-scope-at-use'
+        if d2 == d1:
+            return 'copy-source-unchanged'
+        if isinstance(d2, PhiDef):
+            return 'copy-source-redefined-before-use:' + ('loop-header-merge' if d2.is_loop else 'if-merge')
+        if isinstance(d2.site, IndexedAssign):
+            return 'copy-source-redefined-before-use:index-assign'
+        return 'copy-source-redefined-before-use:plain-assign'
 
     class One(_SubstVar):
         def __init__(self, k):
@@ -362,35 +391,27 @@ def _diag_copy_prop(fn, before, args, ref):
                     return self.subst[d]
             return Var(e.name, e.loc)
 
+    alone, every = [], []
     for k in range(200):
         one = One(k)
         ast_k = one.apply()
         if one.hit is None:
             break
-        if outcome_same(ref, call(fn.with_ast(ast_k), args)):
-            continue
-        e, d, stmt = one.hit
-        src = d.site.expr
-        d1 = du.find_def_from_use(src)
-        if isinstance(stmt, WhileStmt):
-            d2 = du.in_defs[stmt.body].get(src.name)
-        else:
-            d2 = du.reach[stmt].get(src.name)
-        if d2 is None:
-            hz = 'copy-source-not-in-scope-at-use'
-        elif d2 == d1:
-            hz = 'copy-source-unchanged'
-        elif isinstance(d2, PhiDef):
-            hz = 'copy-source-redefined-before-use:' + ('loop-header-merge' if d2.is_loop else 'if-merge')
-        elif isinstance(d2.site, IndexedAssign):
-            hz = 'copy-source-redefined-before-use:index-assign'
-        else:
-            hz = 'copy-source-redefined-before-use:plain-assign'
-        return {'rewrite': 'name->copy-source', 'hazard': hz}
-    return {'rewrite': 'name->copy-source (only several together)', 'hazard': 'undetermined'}
+        _e, d, stmt = one.hit
+        hz = hazard(d, stmt)
+        every.append(hz)
+        if _responsible(ref, got, call(fn.with_ast(ast_k), args)):
+            alone.append(hz)
+    if alone:
+        return [{'rewrite': 'name->copy-source', 'hazard': hz} for hz in sorted(set(alone))]
+    # no substitution suffices alone: name the substitutions whose source is no longer the copied definition
+    stale = sorted({hz for hz in every if hz != 'copy-source-unchanged'})
+    if stale:
+        return [{'rewrite': 'name->copy-source', 'hazard': hz} for hz in stale]
+    return [{'rewrite': 'name->copy-source', 'hazard': 'copy-source-unchanged'}]
 
 
-def _diag_const_fold(fn, before, kw, args, ref):
+def _diag_const_fold(fn, before, kw, args, ref, got):
     from fpy2.analysis import DefineUse, PartialEval
     from fpy2.transform.const_fold import _ConstFoldInstance
 
@@ -402,6 +423,15 @@ def _diag_const_fold(fn, before, kw, args, ref):
             super().__init__(before, pe, kw.get('enable_context', True), kw.get('enable_op', True))
             self.k, self.n, self.hit = k, 0, None
 
+            self.stack = []
+
+        def _visit_expr(self, e, ctx):
+            self.stack.append(e)
+            try:
+                return super()._visit_expr(e, ctx)
+            finally:
+                self.stack.pop()
+
         def _fold(self, e):
             lit = super()._fold(e)
             if lit is None:
@@ -409,30 +439,44 @@ def _diag_const_fold(fn, before, kw, args, ref):
             i = self.n
             self.n += 1
             if i == self.k:
-                self.hit = (e, lit)
+                self.hit = (e, self.stack[-2] if len(self.stack) > 1 else None)
                 return lit
             return None
 
-    for k in range(400):
-        one = One(k)
-        ast_k = one.apply()
-        if one.hit is None:
-            break
-        if outcome_same(ref, call(fn.with_ast(ast_k), args)):
-            continue
-        e, _ = one.hit
+    ESCAPING = ('Call', 'ListExpr', 'TupleExpr', 'IfExpr')
+
+    def classify(e, parent):
         val = pe.by_expr[e]
         old = type(e).__name__
         if _has_list(val):
-            hz = 'list-name-replaced-by-fresh-literal' if old == 'Var' else 'list-expression-replaced-by-literal'
+            if old != 'Var':
+                hz = 'list-expression-replaced-by-literal'
+            elif parent is None or type(parent).__name__ in ESCAPING:
+                # the name is bound, passed, stored or returned: the literal is a different list object
+                hz = 'list-name-replaced-by-fresh-literal'
+            else:
+                # the name is only read here: a fresh list with the same contents would do, so the
+                # contents the analysis holds for the name are not the contents at run time
+                hz = 'read-of-list-assumed-unmodified'
         elif any(_has_list(pe.by_expr.get(c)) for c in _children(e)):
             hz = 'read-of-list-assumed-unmodified'
         elif old == 'Var':
             hz = 'constant-name-replaced-by-literal'
         else:
             hz = 'scalar-operation-evaluated-statically'
-        return {'rewrite': f'{old}->{_lit_kind(val)}-literal', 'hazard': hz}
-    return {'rewrite': 'fold (only several together)', 'hazard': 'undetermined'}
+        return (f'{old}->{_lit_kind(val)}-literal', hz)
+
+    alone = set()
+    for k in range(400):
+        one = One(k)
+        ast_k = one.apply()
+        if one.hit is None:
+            break
+        if _responsible(ref, got, call(fn.with_ast(ast_k), args)):
+            alone.add(classify(*one.hit))
+    if alone:
+        return [{'rewrite': rw, 'hazard': hz} for rw, hz in sorted(alone)]
+    return [{'rewrite': 'fold (only several together)', 'hazard': 'undetermined'}]
 
 
 def _callee_write_kind(callee) -> str:
@@ -480,8 +524,45 @@ def _find_calls(e, acc):
     return acc
 
 
-def _diag_dead_code(fn, before, after, args, ref):
-    from fpy2.ast import Assign, DefaultTransformVisitor, EffectStmt, PassStmt, StmtBlock
+def _used_defs_feeding_unused_merges(ast) -> bool:
+    """Does some definition that is read somewhere feed (only) a merge that nobody reads?"""
+    from fpy2.analysis import AssignDef, DefineUse, PhiDef
+    du = DefineUse.analyze(ast)
+    for d in du.defs:
+        if isinstance(d, PhiDef) and len(du.uses[d]) == 0 and not any(
+                isinstance(x, PhiDef) for x in du.successors[d]):
+            for idx in (d.lhs, d.rhs):
+                arg = du.defs[idx]
+                if isinstance(arg, AssignDef) and len(du.uses[arg]) > 0:
+                    return True
+    return False
+
+
+def _code_follows_constant_branch_that_returns(ast) -> bool:
+    """Is there an `if` with a literal condition whose selected branch ends in `return` and which is
+    followed by further statements in its block?"""
+    from fpy2.ast import BoolVal, DefaultVisitor, If1Stmt, IfStmt, ReturnStmt
+    found = []
+
+    class V(DefaultVisitor):
+        def _visit_block(self, block, ctx):
+            for i, stmt in enumerate(block.stmts):
+                if i + 1 < len(block.stmts) and isinstance(stmt, (If1Stmt, IfStmt)) \
+                        and isinstance(stmt.cond, BoolVal):
+                    if isinstance(stmt, If1Stmt):
+                        body = stmt.body if stmt.cond.val else None
+                    else:
+                        body = stmt.ift if stmt.cond.val else stmt.iff
+                    if body is not None and body.stmts and isinstance(body.stmts[-1], ReturnStmt):
+                        found.append(stmt)
+            super()._visit_block(block, ctx)
+
+    V()._visit_function(ast, None)
+    return bool(found)
+
+
+def _diag_dead_code(fn, before, after, args, ref, got):
+    from fpy2.ast import Assign, DefaultTransformVisitor, EffectStmt, NamedId, PassStmt, StmtBlock
 
     def head(stmt):
         return stmt.format().strip().split('\n')[0].strip()
@@ -490,6 +571,8 @@ def _diag_dead_code(fn, before, after, args, ref):
         return [ln.strip() for ln in ast.format().split('\n')]
 
     lb, la = lines(before), lines(after)
+    from fpy2.analysis import DefineUse
+    du = DefineUse.analyze(before)
 
     class Drop(DefaultTransformVisitor):
         """`before` without its k-th statement (pre-order)."""
@@ -511,34 +594,67 @@ def _diag_dead_code(fn, before, after, args, ref):
                 stmts.append(PassStmt(None))
             return StmtBlock(stmts), ctx
 
-    removed_kinds = set()
+    def classify(stmt):
+        what = type(stmt).__name__
+        callees = _find_calls(stmt.expr, [])
+        if callees:
+            kinds = sorted({_callee_write_kind(c) for c in callees})
+            return (f'delete-{what}-with-call', 'callee-writes-' + '+'.join(kinds))
+        hz = 'right-side-has-no-call'
+        try:
+            from fpy2.ast import NamedId
+            if isinstance(stmt, Assign) and isinstance(stmt.target, NamedId):
+                if len(du.uses[du.find_def_from_site(stmt.target, stmt)]) > 0:
+                    hz = 'deleted-definition-still-has-uses'
+        except Exception:  # noqa: BLE001
+            pass
+        return (f'delete-{what}', hz)
+
+    def is_read(stmt) -> bool:
+        """Does the definition made by this statement have a reader?"""
+        try:
+            if isinstance(stmt, Assign):
+                names = [stmt.target] if isinstance(stmt.target, NamedId) else list(stmt.target.names())
+                return any(len(du.uses[du.find_def_from_site(nm, stmt)]) > 0 for nm in names)
+        except Exception:  # noqa: BLE001
+            pass
+        return False
+
+    # which statements did the pass remove?  By text; where the same text occurs several times and only
+    # some copies went, the copies nobody reads are taken to be the removed ones (both readings give
+    # the same output text, and that is the reading under which the pass did nothing wrong).
+    cands: dict[str, list] = {}
     for k in range(200):
         drop = Drop(k)
         ast_k = drop._visit_function(before, None)
         if drop.hit is None:
-            if k >= drop.n:
-                break
+            break
+        cands.setdefault(head(drop.hit), []).append((k, drop.hit, ast_k))
+    removed = []
+    for h, items in cands.items():
+        gone = lb.count(h) - la.count(h)
+        if gone <= 0:
             continue
-        stmt = drop.hit
-        h = head(stmt)
-        if lb.count(h) <= la.count(h):
-            continue                       # the pass kept this statement
+        items = sorted(items, key=lambda it: (is_read(it[1]), it[0]))
+        removed.extend(items[:gone])
+    removed.sort(key=lambda it: it[0])
+
+    alone, removed_calls, removed_kinds = set(), set(), set()
+    for k, stmt, ast_k in removed:
         removed_kinds.add(type(stmt).__name__)
         if not isinstance(stmt, (Assign, EffectStmt)):
             continue                       # deleting a compound statement alone is not what the pass did
-        try:
-            got = call(fn.with_ast(ast_k), args)
-        except Exception:  # noqa: BLE001
-            continue
-        if outcome_same(ref, got):
-            continue
-        callees = _find_calls(stmt.expr, [])
-        what = type(stmt).__name__
-        if callees:
-            kinds = sorted({_callee_write_kind(c) for c in callees})
-            return {'rewrite': f'delete-{what}-with-call', 'hazard': 'callee-writes-' + '+'.join(kinds)}
-        return {'rewrite': f'delete-{what}', 'hazard': 'right-side-has-no-call'}
-    return {'rewrite': 'delete/restructure ' + '+'.join(sorted(removed_kinds)), 'hazard': 'undetermined'}
+        cls = classify(stmt)
+        if cls[1].startswith('callee-writes-') and cls[1] != 'callee-writes-nothing':
+            removed_calls.add(cls)
+        if _responsible(ref, got, call(fn.with_ast(ast_k), args)):
+            alone.add(cls)
+    if alone:
+        return [{'rewrite': rw, 'hazard': hz} for rw, hz in sorted(alone)]
+    if removed_calls:
+        # no single deletion suffices (e.g. the same writing call removed twice)
+        return [{'rewrite': rw, 'hazard': hz} for rw, hz in sorted(removed_calls)]
+    return [{'rewrite': 'delete/restructure ' + '+'.join(sorted(removed_kinds)), 'hazard': 'undetermined'}]
 
 
 def _diag_cycle(exc: _Cycle) -> dict:
@@ -569,33 +685,36 @@ def _diag_cycle(exc: _Cycle) -> dict:
     return {'pass': name, 'rewrite': 'reports-a-change-but-returns-an-equivalent-program', 'hazard': hz}
 
 
-def diagnose(fn, tid: str, args, ref) -> dict:
-    """Signature parts {'pass', 'rewrite', 'hazard'} for a confirmed violation."""
+def diagnose(fn, tid: str, args, ref, got) -> list[dict]:
+    """Signature parts {'pass', 'rewrite', 'hazard'} for a confirmed violation: one entry per distinct
+    class of single rewrite that suffices to produce it."""
     try:
         steps = mirror_steps(fn, tid)
         while True:
             try:
                 name, kw, before, after = _with_limit(TRANSFORM_TIMEOUT, next, steps)
             except StopIteration:
-                return {'pass': 'unattributed', 'rewrite': 'pipeline mirror does not reproduce', 'hazard': tid}
+                return [{'pass': 'unattributed', 'rewrite': 'pipeline mirror does not reproduce', 'hazard': tid}]
             except _Timeout:
-                return {'pass': 'unattributed', 'rewrite': 'pipeline step does not terminate', 'hazard': tid}
+                return [{'pass': 'unattributed', 'rewrite': 'pipeline step does not terminate', 'hazard': tid}]
             except Exception as e:  # noqa: BLE001
-                return {'pass': 'pipeline step raises', 'rewrite': type(e).__name__, 'hazard': 'n/a'}
+                return [{'pass': 'pipeline step raises', 'rewrite': type(e).__name__, 'hazard': 'n/a'}]
             if outcome_same(ref, call(fn.with_ast(after), args)):
                 continue
             if name == 'CopyPropagate':
-                d = _diag_copy_prop(fn, before, args, ref)
+                ds = _diag_copy_prop(fn, before, args, ref, got)
             elif name == 'ConstFold':
-                d = _diag_const_fold(fn, before, kw, args, ref)
+                ds = _diag_const_fold(fn, before, kw, args, ref, got)
             else:
-                d = _diag_dead_code(fn, before, after, args, ref)
-            d['pass'] = name
-            return d
+                ds = _diag_dead_code(fn, before, after, args, ref, got)
+            for d in ds:
+                d['pass'] = name
+            return ds
     except _Timeout:
         raise
     except Exception as e:  # noqa: BLE001 - labelling must never lose a violation
-        return {'pass': 'undiagnosed', 'rewrite': type(e).__name__ + ': ' + str(e)[:60], 'hazard': tid.split(':')[0]}
+        return [{'pass': 'undiagnosed', 'rewrite': type(e).__name__ + ': ' + str(e)[:60],
+                 'hazard': tid.split(':')[0]}]
 
 
 # --------------------------------------------------------------------------
@@ -802,22 +921,35 @@ class Check(BaseCheck):
                     if frames:
                         top = frames[-1]
                         d['hazard'] = 'raised in ' + _os.path.basename(top.filename) + ':' + top.name
+                    try:
+                        if d['pass'] == 'DeadCodeEliminate':
+                            if type(e).__name__ == 'KeyError' and _used_defs_feeding_unused_merges(state['ast']):
+                                d['hazard'] += '; a definition that is read feeds a merge nobody reads'
+                            elif _code_follows_constant_branch_that_returns(state['ast']):
+                                d['hazard'] += '; statements follow a literal-condition if whose taken branch returns'
+                    except Exception:  # noqa: BLE001
+                        pass
         else:
             effect = ('wrong-value' if got[0] == 'ret' else
                       'raises:' + got[1] if got[0] == 'exc' else 'does-not-terminate')
-            d = diagnose(fn, tid, args, ref)
-        sig = {'pass': d['pass'], 'rewrite': d['rewrite'], 'hazard': d['hazard'], 'effect': effect}
+            ds = diagnose(fn, tid, args, ref, got)
+        if stage == 'transform':
+            ds = [d]
         case = {'family': fam.name, 'size': size, 'helpers': pg.HELPERS, 'src': src, 'transform': tid,
                 'args': [enc_arg(a) for a in args]}
-        detail = (f'family {fam.name}, transformation {tid}'
-                  + (f' (same result text from {len(also)} transformations)' if also and len(also) > 1 else '')
-                  + f', args {case["args"]}\n{src}'
-                  f'original returns {show_outcome(ref)}; transformed: {show_outcome(got)}\n'
-                  f'attributed to {sig["pass"]}: {sig["rewrite"]} [{sig["hazard"]}]')
-        r.outcomes['violation:' + sig['pass'] + ':' + sig['hazard']] += 1
-        if collect is not None:
-            collect.append((sig, detail))
-        r.violate(sig, case, detail)
+        for d in ds:
+            sig = {'pass': d['pass'], 'rewrite': d['rewrite'], 'hazard': d['hazard'], 'effect': effect}
+            detail = (f'family {fam.name}, transformation {tid}'
+                      + (f' (same result text from {len(also)} transformations)' if also and len(also) > 1 else '')
+                      + f', args {case["args"]}\n{src}'
+                      f'original returns {show_outcome(ref)}; transformed: {show_outcome(got)}\n'
+                      f'attributed to {sig["pass"]}: {sig["rewrite"]} [{sig["hazard"]}]'
+                      + (f' (one of {len(ds)} single rewrites of different kinds that each suffice)'
+                         if len(ds) > 1 else ''))
+            r.outcomes['violation:' + sig['pass'] + ':' + sig['hazard']] += 1
+            if collect is not None:
+                collect.append((sig, detail))
+            r.violate(sig, case, detail)
 
     # ---- shards ----------------------------------------------------------
     def run_shard(self, shard) -> ShardResult:
